@@ -51,7 +51,7 @@ static FILE* mon_fopen(void) { Boolean ok; VND(ok, uchar); return (ok & 1) ? &g_
 static char names[6][8];
 void h_AssembleFile(void) {
     char src[4];
-    Boolean co;
+    Boolean co, gerr0;
     src[0] = 'a'; src[1] = 0;
     { int i; for (i = 0; i < 6; i++) { VND_BYTES(names[i], 8); names[i][7] = 0; } }
     SourceFile = names[0]; OutName = names[1]; ErrorName = names[2]; LstName = names[3]; ShareName = names[4]; MacProName = names[5];
@@ -64,14 +64,14 @@ void h_AssembleFile(void) {
     VASSUME(CodeOutput <= 1 && ListMode <= 2 && ShareMode <= 3);
     VASSUME(!MakeDebug);
     DebugMode = DebugNone;
-    GlobErrFlag = False;
+    VND(GlobErrFlag, uchar); VASSUME(GlobErrFlag <= 1); gerr0 = GlobErrFlag;   /* an earlier file of the same run may have failed */
     g_out_exists = 0; g_sum_n = 0; g_openfile_calls = 0;
     co = CodeOutput;
     AssembleFile(src);
     VPOST(CodeOutput == co, "C02: (harness) the -o switch is constant during a run");
     VPOST(g_sum_n == 2 && g_sum_vals[0] == (unsigned long)ErrorCount && g_sum_vals[1] == (unsigned long)WarnCount,
           "C02: the summary prints the error and the warning counter");
-    VPOST((GlobErrFlag != 0) == (ErrorCount != 0), "C02: the run is marked failed iff an error was counted");
+    VPOST((GlobErrFlag != 0) == (gerr0 != 0 || ErrorCount != 0), "C02: the run is marked failed iff an error was counted for this file or an earlier file had failed (the mark is never withdrawn)");
     VPOST(!CodeOutput || ((g_out_exists != 0) == (ErrorCount == 0)), "C02: a code file is left iff no error was counted");
     VREACH("end");
 }
